@@ -295,6 +295,51 @@ def _ac_case(repo, it, S, spec):
     return 3, out
 
 
+BIG_TX = [
+    # (exons, cds): the ranking compares (CDS length, spliced length, position) lexicographically at any size
+    ([(0, 100)], [(0, 99)]),                                   # cds 99, len 100
+    ([(0, 11 * 2 ** 20)], [(0, 90)]),                          # cds 90, len 11.5M (longer, smaller CDS)
+    ([(5, 2 ** 21 + 5), (2 ** 22, 2 ** 22 + 2 ** 20)], None),  # non-coding, len 3M
+    ([(10, 2 ** 24)], [(10, 109)]),                            # cds 99 (ties with the first), len 16M
+]
+
+
+def _big_gene_case(repo, it, S, spec):
+    idxs, kind = spec
+    F = it.enum("CDSFrame")
+    out = []
+    members = [BIG_TX[i] for i in idxs]
+    if kind == "gene":
+        kids = [mk_transcript(it, ex, S["PLUS"], cds, [F["ZERO"]] * len(cds), transcript_id=f"b{i}") if cds else
+                mk_transcript(it, ex, S["PLUS"], transcript_id=f"b{i}") for i, (ex, cds) in zip(idxs, members)]
+        q = "gene.gene:GeneInterval.__init__"
+        try:
+            o = mk_gene(it, kids, gene_id="big")
+        except Raised as ex_:
+            return 1, [("large members", f"gene of large transcripts {list(idxs)}: construction raises {ex_.exc_name}", q)]
+        prim = o.fields.get("primary_transcript")
+        key = lambda j: (-(sum(e - s_ for s_, e in members[j][1]) if members[j][1] else 0), -sum(e - s_ for s_, e in members[j][0]), j)  # noqa: E731
+    else:
+        kids = [mk_feature(it, ex, S["PLUS"], feature_name=f"b{i}") for i, (ex, _c) in zip(idxs, members)]
+        q = "gene.feature:FeatureIntervalCollection.__init__"
+        try:
+            o = mk_feature_collection(it, kids, feature_collection_id="big")
+        except Raised as ex_:
+            return 1, [("large members", f"feature collection of large features {list(idxs)}: construction raises {ex_.exc_name}", q)]
+        prim = o.fields.get("primary_feature")
+        key = lambda j: (-sum(e - s_ for s_, e in members[j][0]), j)  # noqa: E731
+    want = sorted(range(len(members)), key=key)[0]
+    got = [j for j, k_ in enumerate(kids) if k_ is prim]
+    if got != [want]:
+        out.append(("primary member among large members", f"{kind} of members {[BIG_TX[i] for i in idxs]}: primary is member {got}; documented "
+                    f"choice (longest CDS, then longest spliced length, then earliest) is member {want}",
+                    "gene.interval:AbstractFeatureIntervalCollection._find_primary_feature"))
+    lo, hi = min(m[0][0][0] for m in members), max(m[0][-1][1] for m in members)
+    if (o.fields["start"], o.fields["end"]) != (lo, hi):
+        out.append(("span of large members", f"{kind}: span ({o.fields['start']},{o.fields['end']}); expected ({lo},{hi})", q))
+    return 1, out
+
+
 def rk_genes(ctx):
     specs = []
     for r_ in (1, 2, 3):
@@ -312,6 +357,8 @@ def rk_genes(ctx):
     ctx.r.floor("C20.RK", "gene cases", len(specs), 150)
     from ..par import pmap
     results = pmap(_runner(ctx.repo, _gene_case), specs)
+    big = [(idxs, kind) for r_ in (2, 3) for idxs in itertools.permutations(range(len(BIG_TX)), r_) for kind in ("gene", "fc")]
+    results += pmap(_runner(ctx.repo, _big_gene_case), big, min_items=8)
     q = "gene.gene:GeneInterval"
     _report(ctx, "C20.RK", results, [(f"{q}.__init__", "span / primary"), (f"{q}.is_coding", "any transcript coding"),
                                      ("gene.interval:AbstractFeatureIntervalCollection._find_primary_feature", "flag, CDS length, length, index"),
